@@ -25,6 +25,10 @@ def main():
         engine.build_driver()
         p, h, info = engine.ensure_facts()
         print('facts', p, info)
+        try:
+            print('macro fixture facts', engine.ensure_fixture_facts())
+        except engine.BuildFailed as e:
+            print('macro fixture does not build against the tree (reported by C14.R6 / C16.R6):', str(e)[-300:])
         return
     if a.cmd == 'extract':
         p, h, info = engine.ensure_facts(fresh=a.fresh)
